@@ -91,3 +91,75 @@ Proof.
   assert (E' : abs_world (fst (cstep F c o)) = fst (astep F (abs_world c) o)) by (rewrite E; reflexivity).
   rewrite E'. unfold astep. apply run_texts, Hst.
 Qed.
+
+(* ------------------------------------------------------------------ the abstraction of a well-formed concrete world
+   satisfies the invariant of astep_sound *)
+From Delb.Tree Require Import AFlat AFlatFacts AEdit ASound.
+
+Lemma abs_nontag_leaf inh e : el_ok e = true -> is_ktag (ckind_of e) = false ->
+  ikids (abs_el inh e) = [] /\ is_cpik (ikind (abs_el inh e)) = true.
+Proof.
+  destruct e as [i k own data kids]. rewrite el_ok_eq. intros H Hk. apply andb3 in H as (Hd & Hks & _). cbn [ckind_of] in Hk.
+  unfold kind_shape in Hks. rewrite Hk in Hks. apply andb_true_iff in Hks as [Hks _]. apply andb_true_iff in Hks as [He Hn].
+  apply null_nil in Hn. subst kids. destruct data as [[h|] [s|] [|a0 a]]; try discriminate. rewrite abs_el_eq.
+  split; [reflexivity|]. destruct k; [discriminate|reflexivity|reflexivity].
+Qed.
+Lemma abs_entries_tags e : forall inh, el_ok e = true ->
+  forall q p ks, In (q, p, ks) (flat (abs_el inh e)) -> ks <> [] -> kind_of_payload p = NTag.
+Proof.
+  induction e as [i k own data kids IH] using cel_ind'. intros inh Hok q p ks Hin Hne. rewrite abs_el_eq, flat_eq in Hin.
+  destruct Hin as [E|Hin].
+  - injection E as _ <- <-. destruct (is_ktag k) eqn:Ek; [destruct k; try discriminate; reflexivity|].
+    exfalso. apply Hne. destruct (abs_nontag_leaf inh _ Hok Ek) as [H _]. rewrite abs_el_eq in H. cbn [ikids] in H. rewrite H. reflexivity.
+  - rewrite el_ok_eq in Hok. apply andb3 in Hok as (_ & _ & Hkids). unfold akids in Hin. rewrite flat_map_app in Hin. apply in_app_or in Hin.
+    destruct Hin as [Hin|Hin].
+    + exfalso. apply Hne. clear -Hin. induction (chain_texts data) as [|t r IHr]; [destruct Hin|]. cbn [map flat_map flat atext app] in Hin.
+      destruct Hin as [E|Hin]; [injection E as _ _ <-; reflexivity|apply IHr, Hin].
+    + set (dns := in_scope inh own) in *. clearbody dns. induction kids as [|[c t] r IHr]; [destruct Hin|].
+      inversion IH as [|? ? Hc Hrest]; subst. cbn [fst] in Hc. cbn [forallb kid_ok] in Hkids. apply andb_true_iff in Hkids as [Hct Hr].
+      apply andb_true_iff in Hct as [Hcok _]. cbn [flat_map akid] in Hin. rewrite flat_map_app in Hin. apply in_app_or in Hin.
+      destruct Hin as [Hin|Hin]; [|apply (IHr Hrest Hr Hin)]. cbn [flat_map] in Hin. apply in_app_or in Hin. destruct Hin as [Hin|Hin].
+      * apply (Hc dns Hcok q p ks Hin Hne).
+      * exfalso. apply Hne. clear -Hin. induction (chain_texts t) as [|t0 r0 IHr0]; [destruct Hin|]. cbn [map flat_map flat atext app] in Hin.
+        destruct Hin as [E|Hin]; [injection E as _ _ <-; reflexivity|apply IHr0, Hin].
+Qed.
+
+Lemma abs_ainv c : cwf c -> ainv (abs_world c) /\ roots_tag (abs_world c).
+Proof.
+  intros Hc. apply cwf_iff in Hc as [N Hs]. destruct (shape_split _ Hs) as [Hd Hl]. rewrite forallb_forall in Hd, Hl.
+  assert (Docs : forall d, In d (w_docs c) -> doc_ok d = true) by exact Hd.
+  split; [split; [split|]|].
+  - rewrite <- (world_ids_abs _ Hs). exact N.
+  - intros d t Hdin Ht. cbn [abs_world docs] in Hdin. apply in_map_iff in Hdin as (d0 & <- & Hd0). specialize (Docs d0 Hd0).
+    unfold doc_ok in Docs. apply andb_true_iff in Docs as [D1 Hepi]. apply andb_true_iff in D1 as [D1 _]. apply andb_true_iff in D1 as [Hpro _].
+    rewrite forallb_forall in Hpro, Hepi. unfold abs_doc, doc_sibs in Ht. apply in_app_or in Ht.
+    destruct Ht as [Ht|Ht]; apply in_map_iff in Ht as (e & <- & He); [specialize (Hpro e He)|specialize (Hepi e He)];
+      apply andb_true_iff in Hpro || apply andb_true_iff in Hepi.
+    + destruct Hpro as [H1 H2]. apply negb_true_iff in H2. apply abs_nontag_leaf; assumption.
+    + destruct Hepi as [H1 H2]. apply negb_true_iff in H2. apply abs_nontag_leaf; assumption.
+  - intros q p ks Hn Hne. unfold node_of in Hn. apply lookup_some_in in Hn. unfold wflat, forest in Hn. cbn [abs_world docs loose] in Hn.
+    rewrite flat_map_app in Hn. apply in_app_or in Hn. destruct Hn as [Hn|Hn].
+    + apply in_flat_map in Hn as (t & Ht & Hin). apply in_flat_map in Ht as (d & Hdin & Ht). apply in_map_iff in Hdin as (d0 & <- & Hd0).
+      specialize (Docs d0 Hd0). unfold doc_ok in Docs. apply andb_true_iff in Docs as [D1 Hepi]. apply andb_true_iff in D1 as [D1 _].
+      apply andb_true_iff in D1 as [Hpro Hroot]. rewrite forallb_forall in Hpro, Hepi. unfold abs_doc, doc_nodes in Ht. apply in_app_or in Ht.
+      destruct Ht as [Ht|[<-|Ht]].
+      * apply in_map_iff in Ht as (e & <- & He). specialize (Hpro e He). apply andb_true_iff in Hpro as [H1 _]. unfold abs_top in Hin. apply (abs_entries_tags e [] H1 q p ks Hin Hne).
+      * unfold abs_top in Hin. apply (abs_entries_tags _ [] Hroot q p ks Hin Hne).
+      * apply in_map_iff in Ht as (e & <- & He). specialize (Hepi e He). apply andb_true_iff in Hepi as [H1 _]. unfold abs_top in Hin. apply (abs_entries_tags e [] H1 q p ks Hin Hne).
+    + apply in_flat_map in Hn as (t & Ht & Hin). apply in_map_iff in Ht as (l & <- & Hlin). specialize (Hl l Hlin). destruct l as [e|t0].
+      * cbn [abs_loose] in Hin. unfold abs_top in Hin. cbn [loose_ok] in Hl. apply (abs_entries_tags e [] Hl q p ks Hin Hne).
+      * cbn [abs_loose atext flat flat_map map] in Hin. destruct Hin as [E|[]]. injection E as _ _ <-. contradiction.
+  - intros d Hdin. cbn [abs_world docs] in Hdin. apply in_map_iff in Hdin as (d0 & <- & Hd0). specialize (Docs d0 Hd0).
+    unfold doc_ok in Docs. apply andb_true_iff in Docs as [D1 _]. apply andb_true_iff in D1 as [_ Htag]. unfold abs_doc, doc_root, abs_top.
+    destruct (d_root d0) as [i [] ? ? ?]; try discriminate. reflexivity.
+Qed.
+
+(* end to end: a successful call on the concrete model, seen through the abstraction, satisfies the relational
+   specification of the call *)
+Theorem step_edit_ok F c o c' : cwf c -> step_ok F c o = true -> run_fresh (script F o) (abs_world c) = true ->
+  target_exists (abs_world c) o -> setitem_guard F (abs_world c) o ->
+  cstep F c o = (c', ROk) -> edit_ok F (abs_world c) o (abs_world c').
+Proof.
+  intros Hc Hg Hf Ht Hs Hrun. destruct (abs_ainv c Hc) as [I R]. destruct (step_refines F c o (cwf_shape _ Hc) Hg) as [E _].
+  rewrite Hrun in E. cbn [fst snd] in E. apply (astep_sound F _ o _ I R Ht Hf Hs E).
+Qed.
